@@ -119,6 +119,10 @@ DIRECTED = [
     dict(bs=2048, bpg=256, groups=(33, 65, 97), sparse="sparse_super", meta_bg=True, b64=True, base="ext4"),
     dict(bs=1024, bpg=256, groups=(33, 34, 65), sparse="none", meta_bg=True, b64=False),
     dict(bs=4096, bpg=256, groups=(48, 81, 130), sparse="sparse_super2:2", meta_bg=False),
+    # bigalloc: blocks per group != clusters per group; with 1 KiB blocks the first data block is 0
+    dict(bs=1024, bpg=2048, groups=(3, 4, 6), sparse="sparse_super", meta_bg=False, base="ext4", cluster=4),
+    dict(bs=4096, bpg=8192, groups=(2, 3), sparse="sparse_super", meta_bg=False, base="ext4", cluster=4),
+    dict(bs=1024, bpg=4096, groups=(2, 3, 5), sparse="sparse_super", meta_bg=True, b64=True, base="ext4", cluster=16),
 ]
 
 
@@ -180,10 +184,16 @@ def _gen_geometry(rng):
     tail = bpg if full else rng.randint(bpg * 3 // 4, bpg)
     blocks = first + (groups - 1) * bpg + tail
     journal = base != "ext2" and blocks >= 4096 and rng.random() < 0.6
-    return dict(bs=bs, bpg=bpg, groups=groups, blocks=blocks, sparse=sparse, meta_bg=meta_bg, flex=flex,
-                b64=b64, base=base, csum=csum, resize_inode=resize_inode, isz=isz, journal=journal,
-                inodes=0, ipg_mult=rng.choice([1, 1, 2]), fill=rng.choice([0.72, 0.97]),
-                rsv_factor=rng.choice([2, 4, 8]))
+    g = dict(bs=bs, bpg=bpg, groups=groups, blocks=blocks, sparse=sparse, meta_bg=meta_bg, flex=flex,
+             b64=b64, base=base, csum=csum, resize_inode=resize_inode, isz=isz, journal=journal,
+             inodes=0, ipg_mult=rng.choice([1, 1, 2]), fill=rng.choice([0.72, 0.97]),
+             rsv_factor=rng.choice([2, 4, 8]), cluster=1)
+    # bigalloc: blocks per group != clusters per group, the unit the backup search must not confuse
+    if base == "ext4" and rng.random() < 0.18:
+        ratio = rng.choice([4, 16])
+        if bpg % (8 * ratio) == 0 and bpg // ratio >= 64 and tail % ratio == 0:
+            g["cluster"] = ratio
+    return g
 
 
 def mke2fs_args(g):
@@ -200,6 +210,8 @@ def mke2fs_args(g):
         feats.append("^resize_inode")
     else:
         ext.append("resize=%d" % (g["blocks"] * g["rsv_factor"]))
+    if g.get("cluster", 1) > 1:
+        feats.append("bigalloc")
     if g["base"] == "ext4":
         feats.append("64bit" if g["b64"] else "^64bit")
         if not g["flex"]:
@@ -217,12 +229,16 @@ def mke2fs_args(g):
             feats.append("flex_bg")
         if g["base"] == "ext3" and not g["journal"]:
             feats.append("^has_journal")
-    a = ["-q", "-F", "-U", UUID0, "-L", "c20", "-t", g["base"], "-b", str(g["bs"]), "-g", str(g["bpg"]),
+    # (with bigalloc mke2fs takes -g in clusters)
+    a = ["-q", "-F", "-U", UUID0, "-L", "c20", "-t", g["base"], "-b", str(g["bs"]),
+         "-g", str(g["bpg"] // g.get("cluster", 1)),
          "-I", str(g["isz"]), "-N", str(g["inodes"]), "-E", ",".join(ext)]
     if feats:
         a += ["-O", ",".join(feats)]
     if g["flex"]:
         a += ["-G", str(g["flex"])]
+    if g.get("cluster", 1) > 1:
+        a += ["-C", str(g["bs"] * g["cluster"])]
     if g["journal"]:
         a += ["-J", "size=%d" % max(1, g["bs"] // 1024)]
     return a
@@ -409,13 +425,15 @@ def digest(path):
         return T.tree_digest(img), (sig, locs)
 
 
-def restore(e2fsck, env, src, dst, bs, kill, sbblock, d0):
+def restore(e2fsck, env, src, dst, bs, kill, sbblock, d0, keep_sb=False):
     """Destroy the primary in a copy and restore from the backup at sbblock (None = let
-    e2fsck find one).  Returns None or (subkey, what)."""
+    e2fsck find one; keep_sb: only the descriptors are destroyed, the automatic search then
+    works from the geometry in the surviving superblock).  Returns None or (subkey, what)."""
     run.copy_sparse(src, dst)
     with open(dst, "r+b") as f:
-        f.seek(1024)
-        f.write(b"\0" * 1024)
+        if not keep_sb:
+            f.seek(1024)
+            f.write(b"\0" * 1024)
         for b in kill:
             f.seek(b * bs)
             f.write(b"\0" * bs)
@@ -485,7 +503,10 @@ def check_stage(b, env, path, w, tag, rng, tier, tool):
         kill, keep = primary_desc_blocks(img)
         bgs = info["backup_groups"]
         locs = {g: img.sb_block(g) for g in bgs}
-        dflt_bpg = img.sb.s_blocks_per_group == 8 * bs
+        # (bigalloc is outside the statement's geometry list: without a superblock e2fsck cannot guess
+        # the cluster ratio, so "default group size" has no meaning for its blind search; bigalloc
+        # images are judged through -b <backup> and through the descriptors-only destruction)
+        dflt_bpg = img.sb.s_blocks_per_group == 8 * bs and img.sb.s_clusters_per_group == img.sb.s_blocks_per_group
         fsize = os.path.getsize(path)
         res["geom"] = {"bs": bs, "bpg": img.sb.s_blocks_per_group, "groups": img.groups,
                        "sparse": "sparse_super2" if img.sb.has_compat("sparse_super2") else
@@ -530,6 +551,16 @@ def check_stage(b, env, path, w, tag, rng, tier, tool):
                 res["timeouts"] += 1
             elif out:
                 res["viol"].append((out[0] + "-plain", out[1], "no -b given: %s" % out[2]))
+    if kill and not res["viol"] and [g for g in plain_list(max(bgs or [0])) if g in bgs]:
+        # only the primary descriptors destroyed: e2fsck's own search for a backup (it probes groups
+        # 1, 3, 5, 7, 9, ... with the group size from the surviving superblock), any group size
+        out = restore(e2fsck, env, path, dst, bs, kill, None, d0, keep_sb=True)
+        res["restores"].append(("plain-desc-only", bgs[0]))
+        if out and out[0] == "timeout":
+            res["timeouts"] += 1
+        elif out:
+            res["viol"].append((out[0] + "-plain-desc-only", out[1], "descriptors destroyed, superblock intact, "
+                                "no -b given: %s" % out[2]))
     try:
         os.unlink(dst)
     except OSError:
@@ -689,7 +720,7 @@ def _one(arg):
         rng = None
         for attempt in range(8):
             rng = run.rng_for(seed, "C20", idx, attempt)
-            g = gen_geometry(rng, directed=(idx // 8 + seed) if (idx % 8 == 3 and attempt < 4) else None)
+            g = gen_geometry(rng, directed=(idx // 5 + seed) if (idx % 5 == 3 and attempt < 4) else None)
             tdir = w.path("tree")
             shutil.rmtree(tdir, ignore_errors=True)
             small_tree(tdir, rng, min(160, max(8, g["blocks"] * g["bs"] // 1024 // 10)),
